@@ -176,6 +176,10 @@ func (rs *rawSocketPeer) Send() chan<- wamp.Message { return rs.wr }
 
 func (rs *rawSocketPeer) IsLocal() bool { return false }
 
+// closeWriteTimeout is how long Close lets a write in progress take before it
+// gives up on a peer that does not read.
+const closeWriteTimeout = 5 * time.Second
+
 // Close closes the rawsocket peer. This closes the local send channel, and
 // sends a close control message to the socket to tell the other side to close.
 //
@@ -184,6 +188,11 @@ func (rs *rawSocketPeer) Close() {
 	// Tell sendHandler to exit, and discard any queued messages. Do not close
 	// wr channel in case there are incoming messages during close.
 	rs.cancelSender()
+	// The sendHandler may be blocked writing to a peer that has stopped
+	// reading. Give a write in progress some time to finish - it may be the
+	// ABORT or GOODBYE that explains the close to the peer - and then make it
+	// fail, so that the sendHandler gets to see that it was told to exit.
+	_ = rs.conn.SetWriteDeadline(time.Now().Add(closeWriteTimeout))
 	<-rs.writerDone
 	close(rs.wr)
 	for range rs.wr {
